@@ -112,10 +112,11 @@ package tabula
 //@   callsite FilterFragments(pi, fr, h) requires pi == pageNum && h == page.Height()
 //@ func (*Extractor) Headings
 //@   property C10, C11
-//@   flags nosafety, releases
+//@   flags releases
 //@   callsite FilterFragments(pi, fr, h) requires pi == pageNum && h == page.Height()
 // page-level metadata refers to the true source page: every heading of a page is stamped with that page's index
 //@   loop 1:
+//@     invariant len(result.Headings) == entry(len(result.Headings))
 //@     step stamped_with_the_source_page: result.Headings[$i - 1].PageIndex == pageNum
 //@ func (*Extractor) Lists
 //@   property C10, C11
@@ -128,9 +129,11 @@ package tabula
 // (C12: chunks report the page their content came from - the model page carries the SOURCE page number)
 //@ func (*Extractor) Document
 //@   property C10, C11, C12
-//@   flags nosafety, releases
+//@   flags releases
 //@   callsite AddPage(p) requires p.Number == pageNum + 1
 //@   callsite FilterFragments(pi, fr, h) requires pi == pageNum && h == page.Height()
+//@   loop 0:
+//@     invariant len(doc.Metadata.Keywords) == entry(len(doc.Metadata.Keywords))
 //@   loop 6:
 //@     invariant modelPage.Number == pageNum + 1
 //@   loop 7:
